@@ -420,6 +420,9 @@ class Fitter:
             self.close_frontier_node()
         if close.fit.child_count:
             self.placed = add_to_fragment(self.placed, close.depth, close.fit)
+            fit_match = self.frontier[close.depth].match.match_fragment(close.fit)
+            assert fit_match is not None
+            self.frontier[close.depth].match = fit_match
         to_ = close.move
         for d in range(close.depth + 1, to_.depth + 1):
             node = to_.node(d)
@@ -437,12 +440,11 @@ class Fitter:
         top_match = top.match.match_type(type_)
         assert top_match is not None
         top.match = top_match
-        self.placed = add_to_fragment(
-            self.placed,
-            self.depth,
-            Fragment.from_(type_.create(attrs, content)),
+        node = type_.create(attrs, content)
+        self.placed = add_to_fragment(self.placed, self.depth, Fragment.from_(node))
+        self.frontier.append(
+            _FrontierItem(type_, node.content_match_at(node.child_count)),
         )
-        self.frontier.append(_FrontierItem(type_, type_.content_match))
 
     def close_frontier_node(self) -> None:
         open_ = self.frontier.pop()
